@@ -108,3 +108,83 @@ def collection_every_table(ctx, P, rule="COLLECTION-TABLES"):
         n += 1
         ctx.ob(rule, "tsk_table_collection_record_num_rows|%s" % t, ok, tu.loc(fn.node), "%s = %s" % want)
     return n
+
+
+# ---------------------------------------------------------------------------------------------------------------------------
+# Python-specific slips (written before the Python-focused fifth seeding round)
+import ast  # noqa: E402
+
+_CONSUMERS = {"list", "tuple", "sum", "max", "min", "sorted", "set", "dict", "any", "all", "np.fromiter", "np.array", "len"}
+_GEN_CALLS = {"iter", "map", "zip", "filter", "reversed", "enumerate", "trees", "variants", "edge_diffs", "haplotypes", "alignments"}
+
+
+def _loadnames(n):
+    return {x.id for x in ast.walk(n) if isinstance(x, ast.Name) and isinstance(x.ctx, ast.Load)}
+
+
+def py_function_lints(m, qn, fn):
+    """[(kind, node, message)] for one function: late-binding closures, mutable defaults, swallowed exceptions, one-shot
+    iterators consumed twice, `param or default` on a parameter whose falsy values are meaningful."""
+    out = []
+    # 1. closure created in a loop that reads the loop variable when it is CALLED (late binding)
+    for lp in ast.walk(fn):
+        if isinstance(lp, ast.For):
+            tg = {x.id for x in ast.walk(lp.target) if isinstance(x, ast.Name)}
+            for s in lp.body:
+                for x in ast.walk(s):
+                    if isinstance(x, (ast.Lambda, ast.FunctionDef)):
+                        ps = {p.arg for p in x.args.args + x.args.kwonlyargs}
+                        body = x.body if isinstance(x, ast.Lambda) else ast.Module(body=x.body, type_ignores=[])
+                        cap = (_loadnames(body) & tg) - ps
+                        # harmless when the closure is consumed in the same iteration (key= of sorted / max / min)
+                        if cap:
+                            out.append(("late-binding", x, "a closure created in the loop over %s reads `%s` when it is called, i.e. the "
+                                        "value of the LAST iteration" % (sorted(tg), sorted(cap)[0])))
+    # 2. mutable default argument
+    for d in fn.args.defaults + [d for d in fn.args.kw_defaults if d is not None]:
+        if isinstance(d, (ast.List, ast.Dict, ast.Set)) or (isinstance(d, ast.Call) and ast.unparse(d.func) in ("list", "dict", "set")):
+            out.append(("mutable-default", d, "mutable default argument `%s` is shared between calls" % ast.unparse(d)))
+    # 3. an exception swallowed wholesale
+    for h in ast.walk(fn):
+        if isinstance(h, ast.ExceptHandler) and (h.type is None or ast.unparse(h.type) in ("Exception", "BaseException")) \
+                and all(isinstance(s, (ast.Pass, ast.Continue)) for s in h.body):
+            out.append(("swallowed-exception", h, "`except %s: pass` hides every failure of the guarded block" % (ast.unparse(h.type) if h.type else "")))
+    # 4. a one-shot iterator consumed by two loops / consumers
+    gens = {}
+    for s in ast.walk(fn):
+        if isinstance(s, ast.Assign) and len(s.targets) == 1 and isinstance(s.targets[0], ast.Name):
+            v = s.value
+            if isinstance(v, ast.GeneratorExp) or (isinstance(v, ast.Call) and ast.unparse(v.func).split(".")[-1] in _GEN_CALLS):
+                gens.setdefault(s.targets[0].id, []).append(s)
+    for g, defs in gens.items():
+        if len(defs) > 1:
+            continue
+        consumed = []
+        for x in ast.walk(fn):
+            if isinstance(x, (ast.For, ast.comprehension)) and isinstance(x.iter, ast.Name) and x.iter.id == g:
+                consumed.append(x)
+            if isinstance(x, ast.Call) and ast.unparse(x.func) in _CONSUMERS and any(isinstance(a, ast.Name) and a.id == g for a in x.args):
+                consumed.append(x)
+            if isinstance(x, ast.Starred) and isinstance(x.value, ast.Name) and x.value.id == g:
+                consumed.append(x)
+        if len(consumed) > 1:
+            out.append(("iterator-reuse", defs[0], "`%s` is a one-shot iterator (%s) but is consumed %d times: the second consumer sees nothing"
+                        % (g, ast.unparse(defs[0].value)[:40], len(consumed))))
+    return out
+
+
+def py_slips(ctx, py, mods, only=None, rule="PY-SLIPS"):
+    ctx.rule(rule, "Python-specific slips in this property's functions: no closure created inside a loop reads the loop variable "
+                   "late, no mutable default argument, no `except Exception: pass`, no one-shot iterator (generator expression, "
+                   "map / zip / filter / reversed, ts.trees(), ts.variants() …) consumed by two loops or consumers")
+    n = 0
+    for mn in mods:
+        m = py.mod(mn)
+        for qn, fn in m.funcs.items():
+            if only is not None and not only(mn, qn):
+                continue
+            found = py_function_lints(m, qn, fn)
+            n += 1
+            ctx.ob(rule, "%s.%s" % (mn, qn), not found, m.loc(found[0][1]) if found else m.loc(fn),
+                   "clean" if not found else "%s: %s" % (found[0][0], found[0][2]))
+    return n
